@@ -382,7 +382,7 @@ var genC13Op = rapid.Custom(func(t *rapid.T) C13Op {
 })
 
 func genC13(t *rapid.T) C13Case {
-	c := C13Case{Ops: rapid.SliceOfN(genC13Op, 1, 25).Draw(t, "ops"), Translated: chancePct(t, 30, "translated")}
+	c := C13Case{Ops: genSlice(t, genC13Op, 1, 25, "ops"), Translated: chancePct(t, 30, "translated")}
 	nf := uniformN(t, 3, "nfaults")
 	// roughly three primitive calls per operation
 	for i := 0; i < nf; i++ {
